@@ -344,8 +344,27 @@ class WrapperRoles:
                     lst.insert(0, ev) if False else lst.append(ev)
             if lst:
                 evs[n.id] = lst
+        # the re-entrance marker lives in the context variable(s) that some operation of this wrapper *adds a key to*;
+        # operations on any other context variable (a second piece of per-context state) are not marker operations --
+        # what they may do is the business of the effect rules (C12), not of the marker typestate
+        marker_kinds = ("CTX_GET", "RESTORE", "ACQUIRE", "REMOVE", "CLEAR", "LAZYINIT", "CTX_UNKNOWN", "TEST")
+        marker_cvs = set(ev.get("cv") for lst in evs.values() for ev in lst if ev["kind"] == "ACQUIRE" and ev.get("cv") is not None)
+        if marker_cvs:
+            for nid in list(evs):
+                evs[nid] = [ev for ev in evs[nid] if not (ev["kind"] in marker_kinds and ev.get("cv") is not None and ev["cv"] not in marker_cvs)]
+                if not evs[nid]:
+                    del evs[nid]
         self._events = evs
         return evs
+
+    def cv_of_term(self, t):
+        """the context variable a value term was read from (``cv.get()`` somewhere inside it), or None"""
+        from .flow import subterms as _subterms
+
+        for s_ in _subterms(t):
+            if self.is_ctx_get(s_):
+                return s_[1][1]
+        return None
 
     def _classify_call(self, n, call, cond, awaited):
         flow = self.flow
@@ -486,12 +505,13 @@ class WrapperRoles:
                 return {"kind": "RESTORE", "cv": recv, "arg": None, "token": True}
             return {"kind": "CTX_UNKNOWN", "cv": recv, "text": src_of(call)}
         if self.marker_value(recv) == ("S",) or _is_fresh_set_phi_member(recv):
+            cv_ = self.cv_of_term(recv)
             if meth == "add" and len(call.args) == 1:
-                return {"kind": "ACQUIRE", "key": flow.term(call.args[0], n), "idiom": "mutate"}
+                return {"kind": "ACQUIRE", "key": flow.term(call.args[0], n), "idiom": "mutate", "cv": cv_}
             if meth in ("discard", "remove") and len(call.args) == 1:
-                return {"kind": "REMOVE", "key": flow.term(call.args[0], n), "idiom": "mutate"}
+                return {"kind": "REMOVE", "key": flow.term(call.args[0], n), "idiom": "mutate", "cv": cv_}
             if meth in ("clear", "update", "pop", "difference_update", "intersection_update", "symmetric_difference_update"):
-                return {"kind": "CTX_UNKNOWN", "text": src_of(call)}
+                return {"kind": "CTX_UNKNOWN", "text": src_of(call), "cv": cv_}
         return None
 
     def _classify_test(self, n):
@@ -507,7 +527,7 @@ class WrapperRoles:
                 if isinstance(e.ops[0], ast.NotIn):
                     neg = not neg
                 # present_on: the edge kind on which the key IS in S
-                return {"kind": "TEST", "node": n, "key": self.flow.term(e.left, n), "present_on": "F" if neg else "T", "line": n.lineno, "conditional": False}
+                return {"kind": "TEST", "node": n, "key": self.flow.term(e.left, n), "present_on": "F" if neg else "T", "line": n.lineno, "conditional": False, "cv": self.cv_of_term(right)}
         return None
 
 
